@@ -169,6 +169,13 @@ def main(argv=None):
             else:
                 violations.append((i, f))
 
+    if os.environ.get("VERIF_SIGS"):
+        allsig = {}
+        for r in results:
+            for f in _failures_of(r):
+                allsig[f["sig"]] = allsig.get(f["sig"], 0) + 1
+        with open(os.environ["VERIF_SIGS"], "w") as fh:
+            json.dump(allsig, fh, indent=1, sort_keys=True)
     for kid, (k, cnt) in sorted(known_hits.items()):
         print(f"KNOWN-FINDING: property={pid} {k['what']} [{kid}; {cnt} failing elements in this run]")
 
